@@ -37,8 +37,12 @@ def variant(rng, p):
         k = rng.randrange(len(q['pl']))
         q['pl'][k] ^= 1 << rng.randrange(8)
     elif r < 0.7:
-        f = rng.choice(['dev', 'st', 'ver', 'seq', 'vid', 'fl', 'seg'])
-        q[f] = (q[f] + 1) % (4 if f == 'seg' else 256)
+        f = rng.choice(['dev', 'st', 'ver', 'seq', 'vid', 'fl', 'seg', 'ifid', 'ifid'])
+        if f == 'ifid':
+            q['ifid'] = list(q['ifid'])
+            q['ifid'][rng.randrange(4)] ^= 1 << rng.randrange(8)
+        else:
+            q[f] = (q[f] + 1) % (4 if f == 'seg' else 256)
     elif r < 0.8 and 'pt' in q:
         q['pt'] = (q['pt'] % 255) + 1
     elif r < 0.9 and 'mt' in q:
